@@ -357,7 +357,27 @@ impl<P: ConnectionProvider> PoolState<P> {
             // error) — used to avoid double-penalizing them.
             let mut completed = SmallVec::<[IpAddr; 2]>::new();
 
-            while let Some((server, result)) = requests.next().await {
+            // Every attempt carries its own full per-request timeout, so a batch started shortly
+            // before the deadline would otherwise run well past it. Race the batch against the
+            // remaining budget instead.
+            let mut deadline_reached =
+                <<P as ConnectionProvider>::RuntimeProvider as RuntimeProvider>::Timer::delay_for(
+                    deadline.saturating_duration_since(Instant::now()),
+                );
+
+            loop {
+                let next = match futures_util::future::select(
+                    requests.next(),
+                    &mut deadline_reached,
+                )
+                .await
+                {
+                    futures_util::future::Either::Left((next, _)) => next,
+                    futures_util::future::Either::Right(_) => return Err(NetError::Timeout),
+                };
+                let Some((server, result)) = next else {
+                    break;
+                };
                 completed.push(server.ip());
                 let e = match result {
                     Ok(response) if response.truncation => {
